@@ -974,16 +974,27 @@ func evalC20GCS(c c20GCS, o *Obs) error {
 	got := make([][]ans, c.G)
 	start := make(chan struct{})
 	var wg sync.WaitGroup
+	panicCh := make(chan error, 64)
+	// one watch list shared by all goroutines (a query is an argument: nobody writes to it), with an empty item in it
+	shared := [][]byte{probes[0], {}, derivedItem(c.D.Seed+5, 1), probes[len(probes)-1]}
+	sharedCopy := make([][]byte, len(shared))
+	for i := range shared {
+		sharedCopy[i] = append([]byte{}, shared[i]...)
+	}
 	for g := 0; g < c.G; g++ {
 		g := g
 		got[g] = make([]ans, len(probes))
 		wg.Add(1)
 		go func() {
 			defer wg.Done()
+			defer c20Recover(panicCh)
 			<-start
 			for k := range probes {
 				i := (k + g) % len(probes)
 				p := probes[i]
+				f.MatchAny(key, shared)
+				f.ZipMatchAny(key, shared)
+				f.HashMatchAny(key, shared)
 				got[g][i].m, _ = f.Match(key, p)
 				got[g][i].a, _ = f.MatchAny(key, [][]byte{p, derivedItem(c.D.Seed+3, i)})
 				got[g][i].z, _ = f.ZipMatchAny(key, [][]byte{p})
@@ -995,7 +1006,14 @@ func evalC20GCS(c c20GCS, o *Obs) error {
 		}()
 	}
 	close(start)
-	wg.Wait()
+	if err := c20Join(&wg, panicCh, "concurrent GCS queries"); err != nil {
+		return err
+	}
+	for i := range shared {
+		if !bytes.Equal(shared[i], sharedCopy[i]) {
+			return fmt.Errorf("the query list shared by the goroutines was modified by the queries: item %d is %x, was %x", i, shared[i], sharedCopy[i])
+		}
+	}
 	for g := range got {
 		for i := range probes {
 			if got[g][i] != seq[i] {
